@@ -1875,7 +1875,7 @@ class SumVar:
                 delta = var - tf.stop_gradient(var)
                 tmp = x + tf.reduce_sum(y * delta)
                 tmp = tmp + 0.5 * tf.reduce_sum(
-                    tf.reduce_sum(self.hess * delta, axis=-1) * delta
+                    tf.reduce_sum(z * delta, axis=-1) * delta
                 )
                 return tmp
 
